@@ -25,7 +25,7 @@ func (m *verifMAC) Sum(b []byte) []byte {
 	verifLastMAC = m
 	return append(b, m.sum...)
 }
-func (m *verifMAC) Reset()         {}
+func (m *verifMAC) Reset()         { m.data = nil }
 func (m *verifMAC) Size() int      { return 32 }
 func (m *verifMAC) BlockSize() int { return 136 }
 
